@@ -7,7 +7,8 @@ open TruthModel.C09
 #print axioms computeTy_agrees
 #print axioms debug_assert_never_fires
 #print axioms check_never_panics
-#print axioms stmts_accept_iff_welltyped_partial
+#print axioms stmts_accept_iff_welltyped
+#print axioms assign_to_const_rejected
 #print axioms stmts_accept_iff_welltyped_for_cfg
 #print axioms stmts_accept_iff_welltyped_fixed
 #print axioms stmts_accept_iff_welltyped_blocks_walked
@@ -22,4 +23,4 @@ open TruthModel.C09
 #print axioms const_decl_accepted
 #print axioms padding_witness
 #print axioms check_sound_needs_sigsOk
-#print axioms return_outside_function_panics
+#print axioms return_outside_function_rejected
